@@ -84,6 +84,56 @@ theorem b64_roundtrip : ∀ (bs : B), (∀ x ∈ bs, x < 256) → b64dec (b64enc
       simp [h0, h1, h2, h3, ih]
       omega
 
+/-- **unpadded base64 round trip** (the X-GRPC-Details headers): every byte string, whatever its length -/
+theorem b64raw_roundtrip : ∀ (bs : B), (∀ x ∈ bs, x < 256) → b64rawdec (b64rawenc bs) = some bs
+  | [], _ => by simp [b64rawenc, b64rawdec]
+  | [a], h => by
+    have ha : a < 256 := h a (by simp)
+    simp only [b64rawenc, b64rawdec]
+    have h0 := dec6_enc6 (a / 4) (by omega)
+    have h1 := dec6_enc6 ((a % 4) * 16) (by omega)
+    simp [h0, h1]
+    omega
+  | [a, b], h => by
+    have ha : a < 256 := h a (by simp)
+    have hb : b < 256 := h b (by simp)
+    simp only [b64rawenc, b64rawdec]
+    have h0 := dec6_enc6 (a / 4) (by omega)
+    have h1 := dec6_enc6 ((a % 4) * 16 + b / 16) (by omega)
+    have h2 := dec6_enc6 ((b % 16) * 4) (by omega)
+    simp [h0, h1, h2]
+    omega
+  | a :: b :: c :: rest, h => by
+    have ha : a < 256 := h a (by simp)
+    have hb : b < 256 := h b (by simp)
+    have hc : c < 256 := h c (by simp)
+    have ih := b64raw_roundtrip rest (fun x hx => h x (by simp [hx]))
+    have h0 := dec6_enc6 (a / 4) (by omega)
+    have h1 := dec6_enc6 ((a % 4) * 16 + b / 16) (by omega)
+    have h2 := dec6_enc6 ((b % 16) * 4 + c / 64) (by omega)
+    have h3 := dec6_enc6 (c % 64) (by omega)
+    simp only [b64rawenc, b64rawdec]
+    simp [h0, h1, h2, h3, ih]
+    omega
+
+theorem b64rawenc_safe : ∀ (bs : B), ∀ x ∈ b64rawenc bs, x < 128 ∧ 32 < x
+  | [], x, hx => by simp [b64rawenc] at hx
+  | [a], x, hx => by
+    simp [b64rawenc] at hx
+    rcases hx with rfl | rfl <;> exact enc6_safe _
+  | [a, b], x, hx => by
+    simp [b64rawenc] at hx
+    rcases hx with rfl | rfl | rfl <;> exact enc6_safe _
+  | a :: b :: c :: rest, x, hx => by
+    simp only [b64rawenc] at hx
+    simp at hx
+    rcases hx with rfl | rfl | rfl | rfl | hx
+    · exact enc6_safe _
+    · exact enc6_safe _
+    · exact enc6_safe _
+    · exact enc6_safe _
+    · exact b64rawenc_safe rest x hx
+
 /-- the encoding uses only header-safe bytes (alphabet and '=') -/
 theorem b64enc_safe : ∀ (bs : B), ∀ x ∈ b64enc bs, x < 128 ∧ 32 < x
   | [], x, hx => by simp [b64enc] at hx
